@@ -283,7 +283,15 @@ def run(ctx):
                                 ok_heights = True
         R.ob(ok_heights, "GUARD", gs.where(), "GUARD|get_evm_spec|heights",
              "spec selection no longer compares the height with both activation constants (%s)" % sorted(consts), sample={"rule": "GUARD", "fn": "get_evm_spec", "consts": sorted(consts)})
-        for (b, s, fm, line) in forms:
-            # block - H >= 0 edge must select PRAGUE: edge form  H - block <= 0
-            pass
+        # "where the Prague rules are in force, and only there": in force from the activation height on - at that height, not
+        # at the one below (abstract execution per network, comparisons with the height decided by the scenario)
+        import boundary
+        hp = (gs.j.get("param_names") or ["block_number"])[0]
+        for net, want_at, want_before in (("Bitcoin", {"PRAGUE"}, {"CANCUN"}), ("Signet", {"PRAGUE"}, {"CANCUN"}), ("Regtest", {"PRAGUE"}, {"PRAGUE"}), ("Testnet4", {"PRAGUE"}, {"PRAGUE"})):
+            got_at, cmps = boundary.outcomes(F, gs, hp, net, "at")
+            got_bf, _c = boundary.outcomes(F, gs, hp, net, "before")
+            R.ob(got_at == want_at and got_bf == want_before, "GUARD", gs.where(), "GUARD|get_evm_spec|boundary:%s" % net,
+                 "on %s the spec at the activation height is %s (must be %s) and at the height below it %s (must be %s): the Prague rules "
+                 "(and the current-txid helper) start one block off" % (net, sorted(got_at), sorted(want_at), sorted(got_bf), sorted(want_before)),
+                 sample={"rule": "GUARD (abstract execution)", "fn": "get_evm_spec", "network": net, "at": sorted(got_at), "before": sorted(got_bf), "comparisons": cmps})
     return R
